@@ -319,7 +319,29 @@ func genShared(by map[string]*packages.Package, out string) {
 								written = append(written, "&"+g+" in "+fn)
 							}
 						}
+					case *ast.SliceExpr:
+						// slicing a package-level *array* yields a slice of the variable itself (an implicit address-of):
+						// whatever is read or appended through it is shared by every goroutine (a staging buffer, a cache)
+						if g, ok := isGlobal(x.X); ok {
+							if tv, ok := p.TypesInfo.Types[x.X]; ok {
+								if _, isArr := tv.Type.Underlying().(*types.Array); isArr {
+									written = append(written, "&"+g+"[:] in "+fn)
+								}
+							}
+						}
 					case *ast.CallExpr:
+						// copy(global…, src) writes the variable's elements
+						if id, ok := x.Fun.(*ast.Ident); ok && id.Name == "copy" && len(x.Args) == 2 {
+							if _, isBuiltin := p.TypesInfo.Uses[id].(*types.Builtin); isBuiltin {
+								dst := x.Args[0]
+								if se, ok := dst.(*ast.SliceExpr); ok {
+									dst = se.X
+								}
+								if g, ok := isGlobal(dst); ok {
+									written = append(written, "copy("+g+") in "+fn)
+								}
+							}
+						}
 						// a method invoked on a package-level variable may mutate it (shared hashers, buffers,
 						// pools, caches): every such call is listed unless the method has a value receiver
 						// on a non-reference type (which cannot change the variable)
